@@ -11,6 +11,7 @@ import Nlmodel.Proofs.Lemmas.SimFnValidate
 import Nlmodel.Proofs.Lemmas.SimHValidate
 import Nlmodel.Proofs.Lemmas.ResolveHeap
 import Nlmodel.Proofs.Lemmas.ResolveFn
+import Nlmodel.Proofs.Lemmas.Resolve6Top
 open Nl
 
 /-- character classes: loaded from the table dumped by the harness from Rust's std
@@ -90,6 +91,15 @@ def verifyReal (code : String) (consts : List String) : String :=
     | _, _ => "bad-request"
   | _ => "bad-request"
 
+/-- run the machine model on REAL bytecode (lockstep tie of Model/VM to vm.rs, independent of the compiler model) -/
+def runBytesReal (budget : String) (code : String) (consts : List String) : String :=
+  match code.toList with
+  | 'x' :: r =>
+    match unhexBytes r, (consts.filter (· ≠ "")).mapM parseConstTok with
+    | some bs, some cs => runBytesX budget.toNat! { code := (bs.map UInt8.toNat).toArray, consts := cs }
+    | _, _ => "bad-request"
+  | _ => "bad-request"
+
 def handle (cc : CharClass) (line : String) : String :=
   match line.trimAscii.toString.splitOn " " with
   | ["lex", h] =>
@@ -142,6 +152,7 @@ def handle (cc : CharClass) (line : String) : String :=
     | none => "bad-hex"
   | "gcops" :: ops => handleGcOps ops
   | "verify" :: code :: "|" :: consts => verifyReal code consts
+  | "runbytes" :: b :: code :: "|" :: consts => runBytesReal b code consts
   | ["tables"] => modelTables
   | "obj" :: rest => handleObj rest
   | ["evalx", b, h] =>
@@ -165,7 +176,9 @@ def handle (cc : CharClass) (line : String) : String :=
           -- `-r1`: the source tree is in a SYNTACTIC fragment for which the resolver part is a theorem too (no validation)
           if SimF.srcTop ast then "proved-r1"
           else if SimH.inSourceH ast then "proved-heap-r1"
-          else if SimF.inFragment r then "proved" else if SimH.inFragmentH r then "proved-heap" else "outside"
+          else if Sim6.src6Top ast then "proved-heapcalls-r1"
+          else if SimF.inFragment r then "proved" else if SimH.inFragmentH r then "proved-heap"
+          else if Sim6.inFragment6 r then "proved-heapcalls" else "outside"
     | none => "bad-hex"
   | _ => "bad-request"
 
